@@ -217,3 +217,29 @@ M("c09-handler-swallows", "C09", ("_core", "                self.sock.close()\n 
 M("c09-extra-follow", "C09", ("_core", '            for _ in range(options.pop("redirect_limit", 3)):', '            for _ in range(options.pop("redirect_limit", 3) + 1):'), ["R-C09-4"])
 M("c09-old-socket-not-closed-on-redirect", "C09", ("_core", "                    url = self.handshake_response.headers[\"location\"]\n                    self.sock.close()\n", "                    url = self.handshake_response.headers[\"location\"]\n"), ["R-C09-5"])
 M("c09-spec-status-eq-101", "C09", ("_handshake", "    if status in SUPPORTED_REDIRECT_STATUSES:\n        return handshake_response(status, resp, None)", "    if status != 101:\n        return handshake_response(status, resp, None)"), expect="silent")
+
+# ------------------------------------------------------------------ C18
+M("c18-default-port-8080", "C18", ("_url", "        if not port:\n            port = 80\n", "        if not port:\n            port = 8080\n"), ["R-C18-1"])
+M("c18-wss-default-444", "C18", ("_url", "            port = 443", "            port = 444"), ["R-C18-1"])
+M("c18-ws-secure", "C18", ("_url", "    if scheme == \"ws\":\n        if not port:", "    if scheme == \"ws\":\n        is_secure = True\n        if not port:"), ["R-C18-1"])
+M("c18-wss-not-secure", "C18", ("_url", "        is_secure = True\n", "        is_secure = False\n"), ["R-C18-1"])
+M("c18-query-dropped", "C18", ("_url", "    if parsed.query:\n        resource += f\"?{parsed.query}\"", "    if parsed.query:\n        pass"), ["R-C18-1"])
+M("c18-query-ampersand", "C18", ("_url", "resource += f\"?{parsed.query}\"", "resource += f\"&{parsed.query}\""), ["R-C18-1"])
+M("c18-empty-path-empty", "C18", ("_url", "    else:\n        resource = \"/\"", "    else:\n        resource = \"\""), ["R-C18-1"])
+M("c18-foreign-scheme-accepted", "C18", ("_url", "    else:\n        raise ValueError(\"scheme %s is invalid\" % scheme)", "    else:\n        port = port or 80"), ["R-C18-1"])
+M("c18-no-host-accepted", "C18", ("_url", "    else:\n        raise ValueError(\"hostname is invalid\")", "    else:\n        hostname = \"localhost\""), ["R-C18-1"])
+M("c18-explicit-port-ignored", "C18", ("_url", "    if parsed.port:\n        port = parsed.port", "    if parsed.port:\n        pass"), ["R-C18-1"])
+M("c18-resolve-before-parse", "C18", ("_http", "    hostname, port_from_url, resource, is_secure = parse_url(url)\n\n    if socket:", "    socket_probe = __import__('socket').getaddrinfo(url, 0)\n    hostname, port_from_url, resource, is_secure = parse_url(url)\n\n    if socket:"), ["R-C18-2"], expect="violation")
+M("c18-refused-raises", "C18", ("_http", "                if error.errno not in eConnRefused:\n                    raise error\n                err = error\n                continue", "                raise error"), ["R-C18-3"])
+M("c18-enetunreach-dropped", "C18", [("_http", "                        errno.WSAECONNREFUSED,\n                        errno.ENETUNREACH,\n", "                        errno.WSAECONNREFUSED,\n"), ("_http", "eConnRefused = (errno.ECONNREFUSED, errno.ENETUNREACH)", "eConnRefused = (errno.ECONNREFUSED,)")], ["R-C18-3"])
+M("c18-any-error-falls-through", "C18", ("_http", "                if error.errno not in eConnRefused:\n                    raise error\n", ""), ["R-C18-3"])
+M("c18-failed-socket-not-closed", "C18", ("_http", "            except socket.error as error:\n                sock.close()\n", "            except socket.error as error:\n"), ["R-C18-3"])
+M("c18-last-error-swallowed", "C18", ("_http", "    else:\n        if err:\n            raise err\n", "    else:\n        pass\n"), ["R-C18-3"])
+M("c18-only-first-address", "C18", ("_http", "        else:\n            continue\n        break\n    else:", "        else:\n            break\n        break\n    else:"), ["R-C18-3"])
+M("c18-options-after-connect", "C18", [("_http", "        for opts in sockopt:\n            sock.setsockopt(*opts)\n\n        address = addrinfo[4]", "        address = addrinfo[4]"), ("_http", "            else:\n                break\n        else:\n            continue\n        break", "            else:\n                for opts in sockopt:\n                    sock.setsockopt(*opts)\n                break\n        else:\n            continue\n        break")], ["R-C18-4"])
+M("c18-timeout-not-applied", "C18", ("_http", "        sock.settimeout(timeout)\n        for opts in DEFAULT_SOCKET_OPTION:", "        for opts in DEFAULT_SOCKET_OPTION:"), ["R-C18-4"])
+M("c18-nodelay-removed", "C18", ("_socket", "DEFAULT_SOCKET_OPTION = [(socket.SOL_TCP, socket.TCP_NODELAY, 1)]", "DEFAULT_SOCKET_OPTION = []"), ["R-C18-4"])
+M("c18-dispatcher-index-2", "C18", ("_app", "parse_url(self.url)[3]", "parse_url(self.url)[2]"), ["R-C18-5"])
+M("c18-host-port-swapped-tuple", "C18", ("_http", "        return sock, (hostname, port_from_url, resource)\n    except:", "        return sock, (hostname, resource, port_from_url)\n    except:"), ["R-C18-5"])
+M("c18-dispatcher-inverted", "C18", ("_app", "        if is_ssl:\n            return SSLDispatcher(self, timeout)\n        return Dispatcher(self, timeout)", "        if not is_ssl:\n            return SSLDispatcher(self, timeout)\n        return Dispatcher(self, timeout)"), ["R-C18-5"])
+M("c18-spec-scheme-dict", "C18", ("_url", "    if parsed.path:\n        resource = parsed.path\n    else:\n        resource = \"/\"", "    resource = parsed.path if parsed.path else \"/\""), expect="silent")
